@@ -296,6 +296,11 @@ class Check:
 
     def build(self, targets, timeout=1500):
         """make the given .vo targets (and everything they depend on); -> (ok, log)"""
+        # fast path without the lock: everything already up to date (make -q only reads)
+        if os.path.exists(os.path.join(COQ, "Makefile")) and os.path.exists(os.path.join(COQ, ".Makefile.d")):
+            rc, out = sh("timeout 300 make -q %s 2>&1" % " ".join(targets), cwd=COQ)
+            if rc == 0:
+                return True, "up to date"
         with Lock(os.path.join(COQ, ".lock")):
             self.ensure_makefile()
             rc, out = sh("timeout %d make -j%d %s 2>&1" % (timeout, os.cpu_count() or 4,
